@@ -170,6 +170,17 @@ def guard(ctx: Any) -> List[Ob]:
     for g in setters:
         okq = g in from_questions and g not in from_records
         obs.append(ob(R, g, f'self.{flag} = True', 'the QU flag is set only from the decoding of the question section, never while records are read', okq, '' if okq else f'{g.name} is reachable from the record reader: a cache-flush bit would count as a QU question'))
+    # the memory is written in one place only: no other method (an exception handler, a connection callback) resets part of it
+    lcls = prog.cls('zeroconf._listener.AsyncListener')
+    stray = []
+    for g in lcls.methods.values():
+        if g.name == '__init__' or g is f:
+            continue
+        gm = g.params[0] if g.params else 'self'
+        for t, st in attr_stores(g.node):
+            if self_attr(t, gm) in MEM:
+                stray.append((g, st))
+    obs.append(ob(R, stray[0][0] if stray else f, stray[0][1] if stray else 'self.data / self.last_time / self.last_message', 'the duplicate memory is written only by the datagram processor (as a whole); no other method resets a part of it', not stray, f'{stray[0][0].name} stores `{norm(stray[0][1])[:60]}`' if stray else ''))
     obs.append(per_socket_protocol(ctx, R, 'each socket gets its own protocol object, so the duplicate memory is per socket'))
     # TC deferral ignores an identical packet: decided under C12.WIRING; re-checked minimally
     hq = prog.func('zeroconf._listener.AsyncListener.handle_query_or_defer')
